@@ -1546,6 +1546,14 @@ def c14(tier, seed):
             {"send": "isready"},
             {"send": "position startpos"}, {"send": "go depth 2 movetime 100000"}, {"waitbest": 8}, {"send": "stop"}, {"send": "isready"},
             {"send": "position startpos moves d2d4", "afterbest": True}, {"send": "go depth 1", "afterbest": True}, {"waitbest": 8}, {"quit": True}]})
+    # a timer left asleep by an earlier, already answered timed go must not end a later search: the later go has no time
+    # limit, so its bestmove may only come after stop / at its depth limit (TraceSession: premature-answer rule)
+    for b, bn in ((binary, "rel"), (checked, "chk")):
+        for k, later in enumerate(["go infinite", "go depth 60"]):
+            sessions.append({"id": "stale-timer-%s-%d" % (bn, k), "binary": b, "env": {}, "steps": [
+                {"send": "position startpos"}, {"send": "go movetime 1200 depth 1"}, {"waitbest": 8},
+                {"send": "position startpos moves e2e4", "afterbest": True}, {"send": later, "afterbest": True}, {"sleep": 2.0},
+                {"send": "isready"}, {"send": "stop"}, {"waitbest": 8}, {"quit": True}]})
     # replies of the stdin loop while the search thread is printing: bursts of isready during searches that print
     # hundreds of info lines a second (tiny positions)
     for b, bn in ((binary, "rel"), (checked, "chk")):
